@@ -30,6 +30,8 @@ class Lanes:
                 self.races.append((name, r))
             else:
                 self.undecided.append((name, e))
+        except Exception as e:  # a fault of this script is never a verdict
+            self.undecided.append((name, Undecided("internal error in lane: %r" % (e,))))
 
 
 def repo_race(msg):
@@ -62,6 +64,10 @@ def run(c: Check):
         try:
             rulestat(c, th, lanes)
             dnsdb(c, th, lanes)
+        except Undecided:
+            raise
+        except Exception as e:  # a fault of this script is never a verdict
+            raise Undecided("internal error: %r" % (e,))
         finally:
             done = [f.exception() for f in futs]
         for e in done:
@@ -143,7 +149,7 @@ def design_runs(th):
 
 # ------------------------------------------------------------------ rulestat
 def rulestat(c, th, lanes):
-    behs = c.tlc_sim("RuleStat", "RuleStat_sim.cfg", num=300 if th else 40, depth=34 if th else 26)
+    behs = c.tlc_sim("RuleStat", "RuleStat_sim.cfg", num=600 if th else 40, depth=34 if th else 26)
     steps = [[{"a": s["a"], "l": s["l"], "t": s["t"], "r": s["r"]} for s in b] for b in behs]
     inp = os.path.join(c.scratch, "ext2_rs_behs.json")
     json.dump(steps, open(inp, "w"))
@@ -151,13 +157,13 @@ def rulestat(c, th, lanes):
 
     def stepper():
         out, _ = c.go_harness("internal/rulestat", "^TestVerifEXT2Stepper$", files=["ext2_test.go"],
-                              env={"VERIF_IN": inp, "VERIF_NRANDOM": 1500 if th else 150})
+                              env={"VERIF_IN": inp, "VERIF_NRANDOM": 4000 if th else 150})
         got["ev"] = ev = read_ndjson(out)
         return c.validate_segments("TraceRuleStat", "TraceRuleStat.cfg", ev)
 
     def stress():
         out, _ = c.go_harness("internal/rulestat", "^TestVerifEXT2Stress$", files=["ext2_test.go"], race=True,
-                              env={"VERIF_NSTRESS": 40 if th else 6})
+                              env={"VERIF_NSTRESS": 60 if th else 6})
         ev2 = read_ndjson(out)
         if not ev2 or any(e["uploads"] < 10 for e in ev2):
             raise Undecided("rulestat stress vacuous: %s" % [e.get("uploads") for e in ev2])
@@ -219,7 +225,7 @@ def _dnsdb_overlay(c):
 
 
 def dnsdb(c, th, lanes):
-    behs = c.tlc_sim("DNSDB", "DNSDB_sim.cfg", num=300 if th else 40, depth=36 if th else 28)
+    behs = c.tlc_sim("DNSDB", "DNSDB_sim.cfg", num=600 if th else 40, depth=36 if th else 28)
     steps = [[{"a": s["a"], "p": s["p"], "k": s["k"], "rs": s["rs"], "d": s["d"]} for s in b] for b in behs]
     inp = os.path.join(c.scratch, "ext2_db_behs.json")
     json.dump(steps, open(inp, "w"))
@@ -229,7 +235,7 @@ def dnsdb(c, th, lanes):
 
     def stepper():
         out, _ = c.go_harness("internal/dnsdb", "^TestVerifEXT2Stepper$", files=["ext2_test.go"], rewrites=ov,
-                              env=dict(henv, VERIF_IN=inp, VERIF_NRANDOM=2000 if th else 200, VERIF_SIMMAX=3))
+                              env=dict(henv, VERIF_IN=inp, VERIF_NRANDOM=5000 if th else 200, VERIF_SIMMAX=3))
         got["ev"] = ev = read_ndjson(out)
         return c.validate_segments("TraceDNSDB", "TraceDNSDB.cfg", ev)
 
@@ -241,7 +247,7 @@ def dnsdb(c, th, lanes):
 
     def stress():
         out, _ = c.go_harness("internal/dnsdb", "^TestVerifEXT2Stress$", files=["ext2_test.go"], rewrites=ov,
-                              race=True, env=dict(henv, VERIF_NSTRESS=30 if th else 6))
+                              race=True, env=dict(henv, VERIF_NSTRESS=60 if th else 6))
         got["ev2"] = ev2 = read_ndjson(out)
         c.cov["evaluations"] += len(ev2)
         return c.validate_segments("TraceDNSDB", "TraceDNSDB.cfg", ev2, is_reset=lambda e: True)
